@@ -1163,3 +1163,9 @@ pub fn vset_recover_numbers(options: DbOptions) -> Option<(u64, u64, u64, bool)>
     let next_file = vs.get_new_file_number();
     Some((named, next_manifest, next_file, reused))
 }
+
+/// Length of table file 1 (0 if it cannot be opened).
+pub fn table_file_len(options: &DbOptions) -> u64 {
+    let path = crate::file_names::FileNameHandler::new(options.db_path().to_string()).get_table_file_path(1);
+    options.filesystem_provider().open_file(&path).ok().and_then(|f| f.len().ok()).unwrap_or(0)
+}
